@@ -20,6 +20,10 @@ CHECKS = {
    tech="TLA+ spec PageLocks.tla model-checked by TLC (safety + liveness); TLC schedules driven through the real PageLockManager by a puppeteer at hook points",
    text="TLC explores every interleaving of 2 threads x 3 lock/unlock/table-intent operations over 2 pages (3 threads in thorough) with one action per critical section of the code, checks MutexW/NoRW/TablesEmptyWhenIdle and AcquireSucceeds under weak fairness; each explored transition is forced on the real lock manager, with the harness's own occupancy table and the lock-table sizes compared after every step",
    note="blocking is modelled as disabledness (schedules never park a thread inside a contended lock); schedule points exist only at the hooks; page_write_multi not modelled"),
+ "C34": dict(cat="model_checking", ref="DESIGN.md 3.7, 6 (C34)",
+   tech="TLA+ spec Freelist.tla (trunk-shaped model vs abstract free set) model-checked by TLC; single-operation and bulk (FreelistBulk.tla) histories from TLC replayed on the real Freelist",
+   text="TLC checks Conservation/CountIsAllocatable/NoDoubleAlloc for every release/allocate history up to 9 operations over 6 pages with 2-entry trunks (several trunks crossed); every explored single-operation history (real trunk size) and every bulk history with runs of 1,2,4089..4092 operations (up to 3 real trunk boundaries, both directions) is executed on the real Freelist and judged by the abstract set semantics plus the model's predicted counts",
+   note="page identity is not compared (any free page may be returned); sparse in-memory Storage in the harness; double release is outside the client contract"),
 }
 
 NOT_APPLICABLE = {}
